@@ -624,6 +624,17 @@ def _run(trace, out, log):
             cb = {tuple(r[bn.index(lv)] for lv in shared) for r in b["rows"]}
             if not ok_keys or ca != cb:
                 out.count("skipped:shared_keys_not_in_both")
+                if st.get("held") is not None and (k + int(trace.get("uuid_seed", 0))) % 2 == 0:
+                    # Outside C13's quantifier, so neither the result nor an exception is judged - but the
+                    # caller's objects are his: whatever the call does, it may not leave them changed, and
+                    # the history goes on with the same objects afterwards.
+                    try:
+                        Broadcaster(obj).broadcast(prm_o)
+                        out.count("probe:out_of_scope_call_returned")
+                    except Exception:       # noqa
+                        out.count("probe:out_of_scope_call_raised")
+                    if not check_pool(k, "bc (outside the quantifier)"):
+                        return
                 continue
         if _has_duplicate_keys(a) or _has_duplicate_keys(b):
             out.count("skipped:duplicate_keys")
@@ -1083,9 +1094,9 @@ def describe(prop):
             "assumptions": ["unique keys per operand; for partially shared levels every shared key combination occurs in both operands (steps violating the quantifier are skipped and counted)",
                             "droplevel calls are exercised only for 'operands unmodified' (the returned pair then deliberately has different indices; an exception there is counted, not judged)",
                             "two unnamed levels (one per operand) are only exercised for otherwise disjoint names, where the level order of the result is fixed",
-                            "no exception is injected inside broadcast: C13 does not say operands survive a failed call",
+                            "no exception is injected inside broadcast; calls outside the quantifier (a shared-level key missing in one operand) are made now and then and only 'operands unmodified' is judged afterwards, whether they raise or return",
                             "level names are strings (incl. the empty string) or None; integer level names are excluded because pandas itself cannot tell a level named 0 from level number 0"],
-            "required_probes": ["probe:held_broadcaster_reused", "op:bc", "op:bc_scalar", "op:bc_array", "op:bc_drop", "op:derived_calculation", "op:ms_transform", "op:ms_mutate_in_place", "probe:reentered_operand", "seam:uuid4_calls"]}
+            "required_probes": ["probe:out_of_scope_call_raised", "probe:held_broadcaster_reused", "op:bc", "op:bc_scalar", "op:bc_array", "op:bc_drop", "op:derived_calculation", "op:ms_transform", "op:ms_mutate_in_place", "probe:reentered_operand", "seam:uuid4_calls"]}
 
 
 def canary():
